@@ -29,27 +29,40 @@ class Violation:
 
 
 def _plain(v):
-    """JSON-safe copy that keeps int / str dict keys distinguishable without needing them to be mutually orderable."""
+    """JSON-safe, *invertible* rendering: dict keys that are not strings become "<type>repr"; sets, frozensets and tuples
+    are tagged so that `unplain` restores them (replay files must rebuild exactly the recorded input)."""
     if isinstance(v, dict):
-        return {(k if isinstance(k, str) else f"<{type(k).__name__}>{k!r}"): _plain(x) for k, x in v.items()}
-    if isinstance(v, (list, tuple)):
+        return {(k if isinstance(k, str) and not k.startswith("<") else f"<{type(k).__name__}>{k!r}"): _plain(x) for k, x in v.items()}
+    if isinstance(v, list):
         return [_plain(x) for x in v]
-    if isinstance(v, (set, frozenset)):
-        return sorted((_plain(x) for x in v), key=repr)
+    if isinstance(v, tuple):
+        return {"__tuple__": [_plain(x) for x in v]}
+    if isinstance(v, frozenset):
+        return {"__frozenset__": sorted((_plain(x) for x in v), key=repr)}
+    if isinstance(v, set):
+        return {"__set__": sorted((_plain(x) for x in v), key=repr)}
     if isinstance(v, (str, int, float, bool)) or v is None:
         return v
     return repr(v)
 
 
 def unplain(v):
-    """Inverse of _plain for dict keys (used when a replay file is loaded)."""
+    """Inverse of _plain (used when a replay file is loaded)."""
     import ast
     import re
 
     if isinstance(v, dict):
+        if len(v) == 1:
+            (k, x), = v.items()
+            if k == "__tuple__":
+                return tuple(unplain(y) for y in x)
+            if k == "__set__":
+                return set(unplain(y) for y in x)
+            if k == "__frozenset__":
+                return frozenset(unplain(y) for y in x)
         out = {}
         for k, x in v.items():
-            m = re.match(r"^<(int|float|bool|NoneType|tuple)>(.*)$", k) if isinstance(k, str) else None
+            m = re.match(r"^<(int|float|bool|NoneType|tuple|str)>(.*)$", k) if isinstance(k, str) else None
             if m:
                 try:
                     k = ast.literal_eval(m.group(2))
